@@ -291,6 +291,11 @@ func (p *Point) UnmarshalJSON(data []byte) error {
 		return err
 	}
 
+	if g == nil {
+		// json null
+		return errors.New("geojson: not a Point type")
+	}
+
 	point, ok := g.Coordinates.(orb.Point)
 	if !ok {
 		return errors.New("geojson: not a Point type")
@@ -341,6 +346,11 @@ func (mp *MultiPoint) UnmarshalJSON(data []byte) error {
 	err := unmarshalJSON(data, &g)
 	if err != nil {
 		return err
+	}
+
+	if g == nil {
+		// json null
+		return errors.New("geojson: not a MultiPoint type")
 	}
 
 	multiPoint, ok := g.Coordinates.(orb.MultiPoint)
@@ -395,6 +405,11 @@ func (ls *LineString) UnmarshalJSON(data []byte) error {
 		return err
 	}
 
+	if g == nil {
+		// json null
+		return errors.New("geojson: not a LineString type")
+	}
+
 	lineString, ok := g.Coordinates.(orb.LineString)
 	if !ok {
 		return errors.New("geojson: not a LineString type")
@@ -445,6 +460,11 @@ func (mls *MultiLineString) UnmarshalJSON(data []byte) error {
 	err := unmarshalJSON(data, &g)
 	if err != nil {
 		return err
+	}
+
+	if g == nil {
+		// json null
+		return errors.New("geojson: not a MultiLineString type")
 	}
 
 	multilineString, ok := g.Coordinates.(orb.MultiLineString)
@@ -499,6 +519,11 @@ func (p *Polygon) UnmarshalJSON(data []byte) error {
 		return err
 	}
 
+	if g == nil {
+		// json null
+		return errors.New("geojson: not a Polygon type")
+	}
+
 	polygon, ok := g.Coordinates.(orb.Polygon)
 	if !ok {
 		return errors.New("geojson: not a Polygon type")
@@ -549,6 +574,11 @@ func (mp *MultiPolygon) UnmarshalJSON(data []byte) error {
 	err := unmarshalJSON(data, &g)
 	if err != nil {
 		return err
+	}
+
+	if g == nil {
+		// json null
+		return errors.New("geojson: not a MultiPolygon type")
 	}
 
 	multiPolygon, ok := g.Coordinates.(orb.MultiPolygon)
